@@ -114,4 +114,16 @@ LbfgsbWhy(o) ==
   ELSE IF ~o.init_untouched THEN "initial-guess-modified"
   ELSE IF ~o.same_as_fresh THEN "solve-depends-on-earlier-solves-of-the-object"
   ELSE "ok"
+
+(* contract of a stochastic solve with the solver's OWN default sampler (nothing to record inside the run): one       *)
+(* observation per solve of a history on ONE solver object over DIFFERENT data tensors                               *)
+PlainWhy(o) ==
+  IF o.st # "ok" THEN o.st
+  ELSE IF ~o.rank_and_shape_ok THEN "rank-or-shape"
+  ELSE IF ~o.bounds_ok THEN "factor-entry-below-the-lower-bound"
+  ELSE IF o.trace_len > o.max_iters + 1 THEN "more-epochs-than-the-limit"
+  ELSE IF ~o.data_untouched THEN "data-modified"
+  ELSE IF ~o.init_untouched THEN "initial-guess-modified"
+  ELSE IF ~o.same_as_fresh THEN "solve-depends-on-earlier-solves-of-the-object"
+  ELSE "ok"
 =============================================================================
